@@ -19,10 +19,16 @@ Outcomes are canonicalised as ['ok', repr of the deep-frozen value] or ['err', e
              every container reachable from the returned value is mutated in place (values overwritten,
              keys added, dicts cleared, lists appended/reversed; tuple members too); every outcome is
              compared with the reference.  A violation is reported with a minimised call prefix.
-  threads    N in {2, 8, 16} threads in a FRESH process (so registries and country modules are first used
-             concurrently), released by a threading.Barrier, sys.setswitchinterval(1e-6); every thread
-             first runs a shuffled copy of the cache-touching descriptors, then a shuffled slice of the
-             rest; compared with the reference.
+  threads    N in {2, 8, 16} threads in a FRESH process in which only the package `stdnum` itself has been
+             imported (so registries, country packages and country modules are first used concurrently),
+             released by a threading.Barrier, sys.setswitchinterval(1e-6); every thread first runs a
+             shuffled copy of the cache-touching descriptors, then a shuffled slice of the rest; compared
+             with the reference.
+  cold       the same with nothing imported before the threads start.  Here CPython's import system can
+             raise _DeadlockError in one thread (stdnum/__init__.py imports stdnum.util while another
+             thread imports stdnum.util and waits for the package): this is the caller's first import of
+             the package, not a lazy load of the library, so it is counted in
+             distribution['cold_package_import'] and NOT reported as a violation.
   alias      for calls returning containers: no mutable object (dict/list/set/bytearray) is shared between
              two successive results of the same call, nor between a result and anything reachable from
              stdnum.numdb._open_databases or from the globals of any loaded stdnum module.
@@ -109,7 +115,15 @@ def evaluate(desc):
             v = f(*desc.get('args', []), **desc.get('kwargs', {}))
             return ['ok', json.dumps(freeze(v), sort_keys=True, ensure_ascii=True)], v
     except BaseException as e:   # noqa: B902 (outcome = the exception class, whatever it is)
-        return ['err', type(e).__name__], None
+        name = type(e).__name__
+        if name.startswith('_') or isinstance(e, (RuntimeError, ImportError, AttributeError, KeyError)) and len(TRACES) < 20:
+            import traceback
+            TRACES.setdefault(name + ' in ' + desc['module'] + '.' + desc['function'],
+                              [ln.strip() for ln in traceback.format_exception(e)[-9:]])
+        return ['err', name], None
+
+
+TRACES = {}   # child side: traceback tails of unusual exceptions (import machinery, KeyError, ...)
 
 
 MUTABLE = (dict, list, set, bytearray)
@@ -204,6 +218,11 @@ def child_history(req):
 def child_threads(req):
     import threading
     sys.setswitchinterval(1e-6)
+    if req.get('preimport', True):
+        # A program imports the package before it starts threads.  (Without this, two threads doing the very
+        # first `import stdnum.<x>` at once can get importlib's _DeadlockError, because stdnum/__init__.py
+        # imports its own submodule stdnum.util — see the `cold` probe in search().)
+        import stdnum   # noqa: F401
     n = req['nthreads']
     plans = req['plans']            # one list of descriptors per thread
     results = [None] * n
@@ -227,12 +246,14 @@ def child_threads(req):
         t.start()
     for t in threads:
         t.join(timeout=req.get('timeout', 120))
-    return results
+    return {'outs': results, 'traces': TRACES}
 
 
 def child_alias(req):
     found = []
     for d in req['descs']:
+        if d['module'] == 'stdnum.numdb':
+            continue    # numdb.get() hands out the cached registry object itself, by design
         o1, v1 = evaluate(d)
         o2, v2 = evaluate(d)
         if v1 is None or v2 is None:
@@ -563,7 +584,20 @@ def search(seed, tier):
                     r.shuffle(core)
                     plans.append(core + rest[i * per:(i + 1) * per])
                 thread_runs.append({'mode': 'threads', 'nthreads': nthreads, 'plans': plans, 'seed': seed + rep, 'mutate': mut, 'timeout': 150})
-    results = run_parallel(thread_runs, workers=6, timeout=240)
+    cold_runs = [dict(tr, preimport=False) for tr in thread_runs if not tr['mutate']]
+    results = run_parallel(thread_runs + cold_runs, workers=6, timeout=240)
+    cold = {'runs': 0, 'runs_with_deviation': 0, 'deviating_outcomes': {}}
+    for req, r in zip(cold_runs, results[len(thread_runs):]):
+        cold['runs'] += 1
+        dev = False
+        for i, outs in enumerate((r.get('result') or {}).get('outs') or []):
+            for d, o in zip(req['plans'][i], outs or []):
+                if ref.get(dkey(d)) is not None and o != ref[dkey(d)]:
+                    dev = True
+                    cold['deviating_outcomes'][o[1] if o[0] == 'err' else 'value'] = cold['deviating_outcomes'].get(o[1] if o[0] == 'err' else 'value', 0) + 1
+        cold['runs_with_deviation'] += dev
+    distribution['cold_package_import'] = cold
+    results = results[:len(thread_runs)]
     for req, r in zip(thread_runs, results):
         label = 'threads=%d%s' % (req['nthreads'], ' +mutation' if req['mutate'] else '')
         if 'error' in r:
@@ -571,7 +605,8 @@ def search(seed, tier):
                             'relation': 'threads terminate', 'site': 'c13:threads:' + r['error'].split(':')[0], 'history': []})
             continue
         cnt = 0
-        for i, outs in enumerate(r['result']):
+        traces = r['result'].get('traces', {})
+        for i, outs in enumerate(r['result']['outs']):
             if outs is None:
                 failing.append({'module': 'stdnum', 'function': '(threads)', 'args': [], 'observed': 'thread %d did not finish' % i,
                                 'expected': 'all threads finish', 'relation': 'threads terminate', 'site': 'c13:threads:hang', 'history': []})
@@ -583,9 +618,10 @@ def search(seed, tier):
                     site = 'c13:threads:%s.%s' % (d['module'], d['function'])
                     if site not in seen_sites:
                         seen_sites.add(site)
+                        tb = traces.get('%s in %s.%s' % (o[1], d['module'], d['function'])) if o[0] == 'err' else None
                         failing.append(case_of(d, show(o) + ' (%s, thread %d)' % (label, i), show(ref[dkey(d)]),
                                                'outcome under concurrent first use = fresh outcome', site,
-                                               extra={'threads': req['nthreads'], 'mutation': req['mutate']}))
+                                               extra={'threads': req['nthreads'], 'mutation': req['mutate'], 'traceback': tb}))
         n += cnt
         distribution['conditions'][label] = distribution['conditions'].get(label, 0) + cnt
     cases += n
@@ -657,7 +693,7 @@ def replay(case):
         plans = [[d] * 20 for _ in range(case.get('threads', 8))]
         for _ in range(3):
             r = spawn({'mode': 'threads', 'nthreads': len(plans), 'plans': plans, 'seed': 1, 'mutate': bool(case.get('mutation'))})
-            if 'error' in r or any(outs is None or any(o != exp for o in outs) for outs in r['result']):
+            if 'error' in r or any(outs is None or any(o != exp for o in outs) for outs in r['result']['outs']):
                 return case
     return None
 
